@@ -1438,6 +1438,10 @@ class Simulation:
 
         """
 
+        # Ensure misfit has been computed (and therefore the electric fields
+        # and the weights).
+        _ = self.misfit
+
         # Replace residual by provided vector
         # (division by weight is undone in gradient).
         with np.errstate(invalid='ignore'):  # (For division by cplx-NaN.)
